@@ -26,13 +26,13 @@ Corpora == <<
      << L(<<98>>, <<120>>, <<50>>), L(<<97>>, <<121>>, <<50>>) >> >>
 >>
 Cmds == <<
-  [cmd |-> "histogram", ext |-> <<1>>,       ig |-> 0, iv |-> <<>>, grp |-> 0, acc |-> <<>>],
-  [cmd |-> "histogram", ext |-> <<1, 3>>,    ig |-> 2, iv |-> <<121>>, grp |-> 0, acc |-> <<>>],
-  [cmd |-> "table",     ext |-> <<1, 2, 3>>, ig |-> 0, iv |-> <<>>, grp |-> 0, acc |-> <<>>],
-  [cmd |-> "bargraph",  ext |-> <<1, 2>>,    ig |-> 0, iv |-> <<>>, grp |-> 0, acc |-> <<>>],
-  [cmd |-> "analyze",   ext |-> <<3>>,       ig |-> 0, iv |-> <<>>, grp |-> 0, acc |-> <<>>],
-  [cmd |-> "reduce",    ext |-> <<1, 2, 3>>, ig |-> 0, iv |-> <<>>, grp |-> 1, acc |-> <<"count", "sum", "max">>],
-  [cmd |-> "reduce",    ext |-> <<1, 2, 3>>, ig |-> 0, iv |-> <<>>, grp |-> 1, acc |-> <<"sum", "last">>]
+  [cmd |-> "histogram", ext |-> <<1>>,       mt |-> "re", delim |-> <<>>, ig |-> 0, iv |-> <<>>, grp |-> 0, acc |-> <<>>],
+  [cmd |-> "histogram", ext |-> <<1, 3>>,    mt |-> "re", delim |-> <<>>, ig |-> 2, iv |-> <<121>>, grp |-> 0, acc |-> <<>>],
+  [cmd |-> "table",     ext |-> <<1, 2, 3>>, mt |-> "re", delim |-> <<>>, ig |-> 0, iv |-> <<>>, grp |-> 0, acc |-> <<>>],
+  [cmd |-> "bargraph",  ext |-> <<1, 2>>,    mt |-> "re", delim |-> <<>>, ig |-> 0, iv |-> <<>>, grp |-> 0, acc |-> <<>>],
+  [cmd |-> "analyze",   ext |-> <<3>>,       mt |-> "re", delim |-> <<>>, ig |-> 0, iv |-> <<>>, grp |-> 0, acc |-> <<>>],
+  [cmd |-> "reduce",    ext |-> <<1, 2, 3>>, mt |-> "re", delim |-> <<>>, ig |-> 0, iv |-> <<>>, grp |-> 1, acc |-> <<"count", "sum", "max">>],
+  [cmd |-> "reduce",    ext |-> <<1, 2, 3>>, mt |-> "re", delim |-> <<>>, ig |-> 0, iv |-> <<>>, grp |-> 1, acc |-> <<"sum", "last">>]
 >>
 Files == Corpora[CorpusIx]
 cd == Cmds[CmdIx]
